@@ -92,6 +92,7 @@ func (e *Exec) resetPath(prefix []Decision) {
 	e.locCell = nil
 	e.pcDirty = false
 	e.known = map[string]bool{}
+	e.roundings = nil
 	e.defCache = map[string]string{}
 	e.radixes = map[string]*radix{}
 	e.divCache = map[string][2]Int{}
